@@ -4,6 +4,7 @@
    Model/H3Frame.v (internal/http3/frames.go, headers.go); RFC 9114 transcription: Model/H3Spec.v. *)
 From ReqV Require Import Lib.Bytes Lib.BigEndian Model.QuicVarint Proofs.QuicVarintProofs.
 From ReqV Require Import Model.H2Frame Proofs.H2FrameProofs Proofs.H2OrderProofs Proofs.H2ErrorProofs.
+From ReqV Require Import Model.H2Meta Proofs.H2MetaProofs.
 From ReqV Require Import Model.H3Frame Model.H3Spec Proofs.H3FrameProofs Proofs.H3FieldProofs.
 From Coq Require Import Permutation.
 Open Scope N_scope.
@@ -148,6 +149,16 @@ Theorem C05_h2_wellshaped_errors : forall h p e, ~ stream_rule_violated h -> ~ l
   (fh_type h = FrameSettings /\ e = EConn ErrCodeFlowControl).
 Proof. exact h2_wellshaped_errors. Qed.
 Print Assumptions C05_h2_wellshaped_errors.
+
+(* merged header lists (readMetaFrame over the decoded block, any fragmentation, any limit): what is
+   delivered - truncated or not - has only valid values, lower-case token names for regular fields,
+   known / unrepeated / unmixed pseudo-header fields, and fits MaxHeaderListSize.  One direction
+   (soundness of delivery); when a block is refused, and with which class, is tied by correspondence *)
+Theorem C05_h2_meta_delivered_sound_partial : forall mx sid frags fields trunc,
+  h2_meta mx sid frags = MOk fields trunc ->
+  Forall hfield_ok fields /\ check_pseudos fields = true /\ list_size fields <= mx.
+Proof. exact h2_meta_delivered_sound. Qed.
+Print Assumptions C05_h2_meta_delivered_sound_partial.
 
 (* ---------- HTTP/3 frames (RFC 9114 §7.1, §7.2.4; internal/http3/frames.go) ---------- *)
 
